@@ -143,6 +143,48 @@ class _Universal(ast.NodeTransformer):
         return node
 
 
+class _DictCalls(ast.NodeTransformer):
+    """`dict(k1=v1, k2=v2)` -> `{'k1': v1, 'k2': v2}` (same keys, same values,
+    same evaluation order); only in a module that never binds the name
+    `dict` (see `_binds_name`), no positional argument, no `**`."""
+
+    def visit_Call(self, node):
+        self.generic_visit(node)
+        if isinstance(node.func, ast.Name) and node.func.id == 'dict' and \
+                not node.args and node.keywords and all(
+                    k.arg is not None for k in node.keywords):
+            new = ast.Dict(keys=[ast.Constant(value=k.arg)
+                                 for k in node.keywords],
+                           values=[k.value for k in node.keywords])
+            for x in new.keys:
+                ast.copy_location(x, node)
+            return ast.copy_location(new, node)
+        return node
+
+
+def _binds_name(tree, name):
+    """The module binds `name` somewhere (assignment, parameter, def / class,
+    import, loop / with / except target, global), so it may not denote the
+    builtin."""
+    for x in ast.walk(tree):
+        if isinstance(x, ast.Name) and x.id == name and not isinstance(
+                x.ctx, ast.Load):
+            return True
+        if isinstance(x, ast.arg) and x.arg == name:
+            return True
+        if isinstance(x, (ast.FunctionDef, ast.AsyncFunctionDef,
+                          ast.ClassDef)) and x.name == name:
+            return True
+        if isinstance(x, ast.alias) and (x.asname or x.name).split(
+                '.')[0] in (name, '*'):
+            return True
+        if isinstance(x, ast.ExceptHandler) and x.name == name:
+            return True
+        if isinstance(x, (ast.Global, ast.Nonlocal)) and name in x.names:
+            return True
+    return False
+
+
 # ---------------------------------------------------------------------------
 # getattr / setattr with a constant attribute name
 
@@ -699,6 +741,27 @@ def _single_exit(stmts):
     return out
 
 
+def _drop_tail_returns(stmts):
+    """Statement list in single-exit form (`_single_exit`) with the `return`
+    that ends a branch removed (`pass` when the branch had nothing else);
+    only meaningful where the returned value is discarded."""
+    out = list(stmts)
+    if out and isinstance(out[-1], ast.Return):
+        out.pop()
+    elif out and isinstance(out[-1], ast.If):
+        last = out[-1]
+        last.body = _drop_tail_returns(last.body)
+        if last.orelse:
+            last.orelse = _drop_tail_returns(last.orelse)
+            if len(last.orelse) == 1 and isinstance(last.orelse[0], ast.Pass):
+                last.orelse = []
+            elif len(last.body) == 1 and isinstance(last.body[0], ast.Pass):
+                # `if c: pass else: S`  ->  `if not c: S`
+                last.test = _negate_exact(last.test)
+                last.body, last.orelse = last.orelse, []
+    return out or [ast.Pass()]
+
+
 def _simple_helper(fn):
     body = [s for s in fn.body if not (isinstance(s, ast.Expr) and isinstance(
         s.value, ast.Constant))]
@@ -752,6 +815,42 @@ def _mutated_through(stmts, names):
                     r = root(t)
                     if r in names:
                         out.add(r)
+    # ... or through a local ALIAS: a local bound to the name itself or to a
+    # subscript / attribute of it (`row = m[-1, :]`, `t = m.T` -- possibly a
+    # view on the same object) that is then the target of an augmented
+    # assignment (in place for arrays and lists), stored through, or the
+    # receiver of a method-call statement
+    alias = {}
+    grew = True
+    while grew:
+        grew = False
+        for s_ in stmts:
+            for x in ast.walk(s_):
+                if not (isinstance(x, ast.Assign) and len(x.targets) == 1):
+                    continue
+                t, v = x.targets[0], x.value
+                prs = [(t, v)]
+                if isinstance(t, (ast.Tuple, ast.List)) and isinstance(
+                        v, (ast.Tuple, ast.List)) and \
+                        len(t.elts) == len(v.elts):
+                    prs = list(zip(t.elts, v.elts))
+                for t_, v_ in prs:
+                    if not isinstance(t_, ast.Name) or t_.id in alias:
+                        continue
+                    r = root(v_)
+                    r = alias.get(r, r)
+                    if r in names and isinstance(v_, (
+                            ast.Name, ast.Subscript, ast.Attribute)):
+                        alias[t_.id] = r
+                        grew = True
+    if alias:
+        for s_ in stmts:
+            for x in ast.walk(s_):
+                if isinstance(x, ast.AugAssign) and isinstance(
+                        x.target, ast.Name) and x.target.id in alias:
+                    out.add(alias[x.target.id])
+        for a_ in _mutated_through(stmts, set(alias) - set(names)):
+            out.add(alias[a_])
     return out
 
 
@@ -1273,6 +1372,10 @@ def _inline_helpers(tree, modname, ref, log):
                             hnames = set()
                             for s_ in hb:
                                 hnames |= _names(s_)
+                            # (a target that a substituted argument reads
+                            # must not be re-bound before the body read it)
+                            for a_ in sub.values():
+                                hnames |= _names(a_)
                             if not ({x.id for x in tnames} & (
                                     hnames - {x.id for x in rnames})):
                                 for t_, r_ in zip(tnames, rnames):
@@ -1307,6 +1410,22 @@ def _inline_helpers(tree, modname, ref, log):
                             body = [RR().visit(s_) for s_ in body]
                             direct = True
                         elif isinstance(st, ast.Return) and st.value is c:
+                            direct = True
+                        elif isinstance(st, ast.Expr) and st.value is c and \
+                                all(x.value is None or isinstance(
+                                    x.value, ast.Constant) for s_ in body
+                                    for x in ast.walk(s_)
+                                    if isinstance(x, ast.Return)):
+                            # a procedure called for its effects: after the
+                            # single-exit transformation every `return` (bare
+                            # or of a constant, which the call statement
+                            # discards) is the last statement of its branch
+                            # and nothing follows the branch, so it is dropped
+                            body = _drop_tail_returns(body)
+                            if any(isinstance(x, ast.Return) for s_ in body
+                                   for x in ast.walk(s_)):
+                                failed = True
+                                break
                             direct = True
                         else:
                             failed = True
@@ -2322,6 +2441,68 @@ def _inline_literal_tuples(fn, rf, log, q):
     ast.fix_missing_locations(fn)
 
 
+def _filtered_list_truth_uses(fn, h, loop, g0):
+    """`L = [x for x in (A, B, C) if c(x)]` read by `for v in L` (`loop`):
+    the other reads of L, as [(holder node, field)], when every one of them
+    only asks whether L is empty (`if L`, `while L`, `.. if L else ..`,
+    `not L`); None when L is read in any other way.  Without other reads: [].
+    With other reads the filter is re-evaluated where L was read, so it must
+    be a comparison of the element with a constant (`x is not None`) and the
+    elements must be look-ups that nothing in the function stores to."""
+    name = loop.iter.id
+    reads = [x for x in _own_nodes(fn) if isinstance(x, ast.Name)
+             and x.id == name and x is not loop.iter
+             and isinstance(x.ctx, ast.Load)]
+    if len([x for x in ast.walk(fn) if isinstance(x, ast.Name)
+            and x.id == name]) != len(reads) + 2:
+        return None         # (also: read by a nested function)
+    if not reads:
+        return []
+    holders = []
+    for n in _own_nodes(fn):
+        if isinstance(n, (ast.If, ast.While, ast.IfExp)) and n.test in reads:
+            holders.append((n, 'test'))
+        elif isinstance(n, ast.UnaryOp) and isinstance(n.op, ast.Not) and \
+                n.operand in reads:
+            holders.append((n, 'operand'))
+    if len(holders) != len(reads):
+        return None
+    if any(getattr(x, 'lineno', 0) <= h[2].lineno for x in reads):
+        return None
+    if len(g0.ifs) != 1:
+        return None
+    c = g0.ifs[0]
+    if not (isinstance(c, ast.Compare) and len(c.ops) == 1 and
+            isinstance(c.left, ast.Name) and c.left.id == g0.target.id and
+            isinstance(c.comparators[0], ast.Constant)):
+        return None
+    items = _literal_items(g0.iter)
+    if items is None or not all(_pure_lookup(e) for e in items):
+        return None
+    texts = set()
+    for e in items:
+        texts |= _chain_texts(e) | _names(e)
+    for n in _own_nodes(fn):
+        tg = []
+        if isinstance(n, ast.Assign):
+            tg = n.targets
+        elif isinstance(n, (ast.AugAssign, ast.AnnAssign, ast.For)):
+            tg = [n.target]
+        elif isinstance(n, ast.Delete):
+            tg = n.targets
+        elif isinstance(n, ast.withitem) and n.optional_vars is not None:
+            tg = [n.optional_vars]
+        elif isinstance(n, ast.NamedExpr):
+            tg = [n.target]
+        for t in tg:
+            for x in ast.walk(t):
+                if isinstance(x, (ast.Name, ast.Attribute, ast.Subscript)) \
+                        and not isinstance(x.ctx, ast.Load) and \
+                        _n(x) in texts:
+                    return None
+    return holders
+
+
 def _unroll_literal_loops(fn, rf, log, q):
     ref_loops = {i for t, i in rf.get('loops', [])}
     for blk in _blocks(fn):
@@ -2341,14 +2522,15 @@ def _unroll_literal_loops(fn, rf, log, q):
                         lc = h[2].value
                         g0 = lc.generators[0] if len(lc.generators) == 1 \
                             else None
+                        truth_uses = None
                         if g0 is not None and isinstance(
                                 g0.target, ast.Name) and isinstance(
                                     lc.elt, ast.Name) and \
                                 lc.elt.id == g0.target.id and \
-                                len(g0.ifs) <= 1 and sum(
-                                    1 for x in _own_nodes(fn) if isinstance(
-                                        x, ast.Name) and
-                                    x.id == st.iter.id) == 2:
+                                len(g0.ifs) <= 1:
+                            truth_uses = _filtered_list_truth_uses(
+                                fn, h, st, g0)
+                        if truth_uses is not None:
                             items = _literal_items(g0.iter)
                             if items is not None:
                                 filt = (g0.target.id, g0.ifs[0]) \
@@ -2409,6 +2591,18 @@ def _unroll_literal_loops(fn, rf, log, q):
                         fb, fk, fs = filtered_local
                         if fs in fb:
                             fb.remove(fs)
+                        for holder, field in truth_uses:
+                            # `L` as a truth value: some element passes the
+                            # filter
+                            setattr(holder, field, ast.copy_location(
+                                ast.BoolOp(op=ast.Or(), values=[
+                                    _Subst({filt[0]: c_}).visit(
+                                        copy.deepcopy(filt[1]))
+                                    for c_ in items]),
+                                getattr(holder, field)))
+                            log.append('%s: truth value of the filtered list '
+                                       '%s spelled as the filter over its '
+                                       'elements' % (q, _n(st.iter)))
                     log.append('%s: literal loop `for %s in %s` unrolled'
                                % (q, _n(st.target), _n(st.iter)))
                     i += len(new)
@@ -2499,6 +2693,11 @@ def _inline_temp(fn, name, allow_calls=False, ref_calls=None,
                 r_ = r_.value
             if isinstance(r_, ast.Name) and r_.id == name:
                 return False
+    # ... nor an object that is changed in place through a local alias of
+    # the temporary (`row = t[-1, :]; row += ...`: a view on the same array)
+    if not alias_of_existing and len(loads) > 1 and \
+            name in _mutated_through(list(fn.body), {name}):
+        return False
     if isinstance(val, (ast.List, ast.Dict, ast.Set, ast.ListComp,
                         ast.DictComp, ast.SetComp)) and len(loads) > 1 \
             and not iter_only:
@@ -2764,6 +2963,66 @@ def _dictcomps_to_loops(fn, rf, log, q):
     ast.fix_missing_locations(fn)
 
 
+def _recorded_bound_name(comp, texts):
+    """The bound variable w of a recorded comprehension (one of `texts`)
+    that `comp` equals once its own bound variable is renamed to w; None if
+    there is none.  Alpha-renaming is sound because w occurs nowhere in
+    `comp` and every occurrence of the old name inside `comp` is renamed."""
+    if len(comp.generators) != 1 or not isinstance(
+            comp.generators[0].target, ast.Name):
+        return None
+    v = comp.generators[0].target.id
+    if v in _names(comp.generators[0].iter):
+        return None
+    used = _names(comp)
+    for t in sorted(texts):
+        try:
+            node = ast.parse(t, mode='eval').body
+        except SyntaxError:
+            continue
+        if type(node) is not type(comp) or len(node.generators) != 1 or \
+                not isinstance(node.generators[0].target, ast.Name):
+            continue
+        w = node.generators[0].target.id
+        if w == v or w in used:
+            continue
+        c2 = copy.deepcopy(comp)
+        _rename(c2, {v: w})
+        if _n(c2) == t:
+            return w
+    return None
+
+
+def _comprehension_vars_to_reference(fn, rf, log, q):
+    """A comprehension that the reference spells with another bound variable
+    (`[f(asm) for asm in S]` / `[f(a) for a in S]`) gets the recorded name:
+    the variable is local to the comprehension, so nothing else reads it."""
+    texts = set()
+    for t in list(rf.get('calls', {})) + [
+            d for ds in rf.get('defs', {}).values() for d in ds]:
+        if ' for ' not in t:
+            continue
+        try:
+            node = ast.parse(t, mode='eval').body
+        except SyntaxError:
+            continue
+        for x in ast.walk(node):
+            if isinstance(x, (ast.ListComp, ast.SetComp, ast.GeneratorExp)):
+                texts.add(_n(x))
+    if not texts:
+        return
+    for c in [x for x in _own_nodes(fn) if isinstance(
+            x, (ast.ListComp, ast.SetComp, ast.GeneratorExp))]:
+        if _n(c) in texts:
+            continue
+        w = _recorded_bound_name(c, texts)
+        if w is not None:
+            v = c.generators[0].target.id
+            _rename(c, {v: w})
+            log.append('%s: bound variable %s of a comprehension -> %s '
+                       '(recorded spelling)' % (q, v, w))
+
+
 def _loops_to_comprehensions(fn, rf, log, q):
     """`X = []` + `for v in S: X.append(E)`  ->  `X = [E for v in S]` where
     the reference defines X by a comprehension."""
@@ -2865,6 +3124,18 @@ def _loops_to_comprehensions(fn, rf, log, q):
                             target=b.target, iter=b.iter,
                             ifs=[cond] if cond is not None else [],
                             is_async=0)])
+                    bound = None
+                    if not (x in comp_defs or _n(comp) in all_comp_texts) \
+                            and isinstance(b.target, ast.Name) and \
+                            _dead_outside(fn, b, b.target.id):
+                        # the recorded comprehension up to the name of its
+                        # bound variable (which names nothing outside it)
+                        bound = _recorded_bound_name(comp, all_comp_texts)
+                    if bound is not None:
+                        log.append('%s: loop variable %s -> %s (bound '
+                                   'variable of the recorded comprehension)'
+                                   % (q, b.target.id, bound))
+                        _rename(b, {b.target.id: bound})
                     if x in comp_defs or _n(comp) in all_comp_texts:
                         a.value = ast.copy_location(comp, a.value)
                         del blk[i + 1]
@@ -3741,14 +4012,33 @@ def _sink_build_block(blk, i, k, x):
     is a plain assignment of a call-free (numpy/math/builtin calls aside)
     value, the X-statements write nothing but X / X[...], and they read
     nothing that the statements they are moved past write (a stored chain,
-    one of its containers, or an extension of it).  Returns True if done."""
+    one of its containers, or an extension of it).  Temporaries bound in
+    between that only the X-statements read move with them.  Returns True if
+    done."""
     build, other = [blk[i]], []
     for s_ in blk[i + 1:k]:
         if any(isinstance(n, ast.Name) and n.id == x for n in ast.walk(s_)):
             build.append(s_)
         else:
             other.append(s_)
-    if not other:
+    # a temporary `t = e` among the others that the X-statements read moves
+    # with them (and what it reads in turn); nothing that stays may mention t
+    temps, grew = set(), True
+    while grew:
+        grew = False
+        for s_ in list(other):
+            if isinstance(s_, ast.Assign) and len(s_.targets) == 1 and \
+                    isinstance(s_.targets[0], ast.Name) and any(
+                        isinstance(n, ast.Name) and n.id == s_.targets[0].id
+                        for b_ in build for n in ast.walk(b_)):
+                other.remove(s_)
+                build.append(s_)
+                temps.add(s_.targets[0].id)
+                grew = True
+    build.sort(key=lambda s_: next(j for j, o_ in enumerate(blk)
+                                   if o_ is s_))
+    if not other or any(isinstance(n, ast.Name) and n.id in temps
+                        for s_ in other for n in ast.walk(s_)):
         return False
     for s_ in build + other:
         if not (isinstance(s_, ast.Assign) and len(s_.targets) == 1 or
@@ -3758,6 +4048,9 @@ def _sink_build_block(blk, i, k, x):
             return False
     for s_ in build[1:]:
         t_ = s_.targets[0] if isinstance(s_, ast.Assign) else s_.target
+        if isinstance(t_, ast.Name) and t_.id in temps and isinstance(
+                s_, ast.Assign):
+            continue
         if not isinstance(t_, ast.Subscript):
             return False
         while isinstance(t_, ast.Subscript):
@@ -3805,9 +4098,49 @@ def _basic_index_chain(fn, tgt):
     return True
 
 
+_ARRAY_MAKERS = ('np.zeros', 'np.ones', 'np.empty', 'np.full', 'np.array',
+                 'np.zeros_like', 'np.ones_like', 'np.empty_like',
+                 'np.full_like')
+
+
+def _array_built_once(fn, name):
+    """Like _single_assign, for a local that is bound once to a fresh NumPy
+    array (`X = np.zeros(..)`) and otherwise only updated by genuine augmented
+    assignments `X op= e`.  An ndarray implements every augmented operator in
+    place and returns itself, so `X op= e` re-binds X to the object it already
+    names: X denotes one object throughout.  An `X = X op e` that the
+    universal step spelled `X op= e` (marked `_was_assign`) makes a *new*
+    array and is not accepted."""
+    hits = []
+    for blk in _blocks(fn):
+        for i, st in enumerate(blk):
+            if isinstance(st, ast.Assign) and len(st.targets) == 1 and \
+                    isinstance(st.targets[0], ast.Name) and \
+                    st.targets[0].id == name:
+                hits.append((blk, i, st))
+    if len(hits) != 1:
+        return None
+    val = hits[0][2].value
+    if not (isinstance(val, ast.Call) and _n(val.func) in _ARRAY_MAKERS):
+        return None
+    augs = {id(a.target) for a in _own_nodes(fn)
+            if isinstance(a, ast.AugAssign) and isinstance(a.target, ast.Name)
+            and a.target.id == name and not getattr(a, '_was_assign', False)
+            and not isinstance(a.op, ast.MatMult)}
+    for x in _own_nodes(fn):
+        if isinstance(x, ast.Name) and x.id == name and isinstance(
+                x.ctx, (ast.Store, ast.Del)) and \
+                x is not hits[0][2].targets[0] and id(x) not in augs:
+            return None
+    return hits[0]
+
+
 def _dissolve_built_locals(fn, rf, log, q):
     """`X = D; X[i] = ...; T = X`  ->  `T = D; T[i] = ...` for a local X the
-    reference does not know (a container built in a local and stored)."""
+    reference does not know (a container built in a local and stored).  X may
+    also be updated in place by `X op= e` when D makes a NumPy array
+    (`_array_built_once`): `T op= e` then updates the same object and stores
+    it back where it already is."""
     ref_locs = set(rf.get('locals', []))
     for _ in range(10):
         params, locs = local_order(fn)
@@ -3815,7 +4148,7 @@ def _dissolve_built_locals(fn, rf, log, q):
         for x in locs:
             if x in ref_locs:
                 continue
-            h = _single_assign(fn, x)
+            h = _single_assign(fn, x) or _array_built_once(fn, x)
             if h is None:
                 continue
             blk, i, st = h
@@ -3858,23 +4191,38 @@ def _dissolve_built_locals(fn, rf, log, q):
                     for a_ in ast.walk(s_) if isinstance(a_, ast.Assign)
                     for t_ in a_.targets):
                 continue
-            # operands of T are not re-bound in between
+            # operands of T are not re-bound in between (`X = D; X[0] = ..;
+            # T0 = {}; T0['k'] = X`: the record is created behind the build
+            # block -- sink the block first, as below)
             ops = _names(tgt)
-            if any(isinstance(n, ast.Name) and isinstance(n.ctx, ast.Store)
-                   and n.id in ops for s_ in blk[i:k] for n in ast.walk(s_)):
-                continue
+
+            def _rebound():
+                return any(isinstance(n, ast.Name)
+                           and isinstance(n.ctx, ast.Store) and n.id in ops
+                           for s_ in blk[i:k] for n in ast.walk(s_))
+            if _rebound():
+                if not _sink_build_block(blk, i, k, x):
+                    continue
+                i = next(j for j, s_ in enumerate(blk) if s_ is st)
+                if _rebound():
+                    continue
+                log.append('%s: statements building %s moved down to its '
+                           'store into %s' % (q, x, _n(tgt)))
             # T itself and the containers it lives in (self.clad for
             # self.clad['r']) must not be touched while X is being built:
             # `X = D; X[0] = ..; self.clad = {}; self.clad['r'] = X` cannot
             # become `self.clad['r'] = D; ..; self.clad = {}`.  If they are,
             # first sink the statements that build X down to the final store
             # (past statements they provably commute with), then look again.
+            # (the definition `X = D` itself may read them: D is evaluated
+            # at the same point and before the store in `T = D` as well; only
+            # the statements the store is moved across matter)
             tset = _chain_texts(tgt)
-            if _mentions(blk[i:k], tset):
+            if _mentions(blk[i + 1:k], tset):
                 if not _sink_build_block(blk, i, k, x):
                     continue
                 i = next(j for j, s_ in enumerate(blk) if s_ is st)
-                if _mentions(blk[i:k], tset):
+                if _mentions(blk[i + 1:k], tset):
                     continue
                 log.append('%s: statements building %s moved down to its '
                            'store into %s' % (q, x, ttext))
@@ -4780,6 +5128,8 @@ def canonicalise(tree, modname, text=None):
         return log
     ref = load_reference()
     _Universal().visit(tree)
+    if not _binds_name(tree, 'dict'):
+        _DictCalls().visit(tree)
     from . import core as _core
     _KwToPos(_signatures(_core.REPO)).visit(tree)
     _SplitTupleAssign().visit(tree)
@@ -4806,6 +5156,8 @@ def canonicalise(tree, modname, text=None):
         n0 = len(log)
         _sink_selected_callee(fn, rf, log, q)
         _inline_hoisted(fn, rf, log, q)
+        # a callee that was reached through a hoisted alias is named now
+        _KwToPos(_signatures(_core.REPO)).visit(fn)
         _inline_literal_iterables(fn, rf, log, q)
         _pipeline_to_locals(fn, rf, log, q)
         _flags_from_tests(fn, rf, log, q)
@@ -4814,6 +5166,7 @@ def canonicalise(tree, modname, text=None):
         _cached_last_elements(fn, rf, log, q)
         _restore_bool_returns(fn, rf, log, q)
         _dictcomps_to_loops(fn, rf, log, q)
+        _comprehension_vars_to_reference(fn, rf, log, q)
         _loops_to_comprehensions(fn, rf, log, q)
         _inline_literal_tuples(fn, rf, log, q)
         _unroll_literal_loops(fn, rf, log, q)
@@ -4833,6 +5186,7 @@ def canonicalise(tree, modname, text=None):
         _inline_indexed_comprehensions(fn, rf, log, q)
         _tuple_locals_to_lists(fn, rf, log, q)
         _temps_and_names(fn, rf, log, q)
+        _comprehension_vars_to_reference(fn, rf, log, q)
         # loop headers over locals that only now carry their recorded names
         _loops_to_reference(fn, rf, log, q)
         _rehoist(fn, rf, log, q)
